@@ -64,7 +64,7 @@ def expanded(repo=None):
         env['CARGO_NET_OFFLINE'] = 'true'
         t = time.time()
         r = sh(['cargo', '+nightly', 'rustc', '--manifest-path', os.path.join(repo, 'Cargo.toml'), '--lib', '--offline',
-                '--target-dir', os.path.join(CACHE, 'expand-target'), '--', '-Zunpretty=expanded'], env=env)
+                '--target-dir', os.path.join(CACHE, 'expand-target' + ('' if os.path.abspath(repo) == '/repo' else '-alt')), '--', '-Zunpretty=expanded'], env=env)
         if r.returncode != 0 or len(r.stdout) < 1000:
             raise Inconclusive('macro expansion of the working tree failed (does it compile?): ' + r.stderr[-800:])
         tmp = path + '.tmp%d' % os.getpid()
